@@ -388,6 +388,10 @@ def generate(tier, seed, ctx):
     for k in range(16 if th else 6):
         st("metro1", 3000, [24, 0.3, 60, 20000, 0.0, 10.0])
         st("metro1", 3000, [25, 0.3, 40, 20000, 0.0, 10.0])
+        # peaks whose tails underflow to exactly 0 (start >= 7 proposal widths from the support with high probability), 1-D and 2-D
+        st("metro1", 2000, [26, 2.0, 40, 30000, 0.0, 100.0])
+        st("metro2", 2000, [25, 2.0, 2.0, 40, 30000, 0.0, 100.0, -10.0, 10.0])
+        st("metro2", 2000, [24, 0.5, 0.5, 40, 60000, 0.0, 10.0, -5.0, 5.0])
     for pid, s1, s2, thin, burn, dom in [(20, 1.7, 3.4, 40, 200, []), (3, 1.0, 0.6, 40, 100, [-1.0, 1.0, 0.0, 1.0]), (0, 0.5, 1.0, 40, 50, [0.0, 1.0, 2.0, 4.0])]:
         st("metro2", M, [pid, s1, s2, thin, burn] + dom)
     return R
@@ -766,13 +770,13 @@ def cmp_stat(a, impl, ctx):
                 cdf = lambda x: (stats.laplace.cdf(x) - La) / (Lb - La)
             else:
                 cdf = stats.laplace.cdf
-        elif pid in (24, 25):
-            zero = (np.abs(v - 5.0) >= 1.0) if pid == 24 else ((v < 2.0) | (v > 3.0))
+        elif pid in (24, 25, 26):
+            zero = (np.abs(v - 5.0) >= 1.0) if pid == 24 else (((v < 2.0) | (v > 3.0)) if pid == 25 else (np.exp(-0.5 * (v - 90.0) ** 2) == 0.0))
             if np.any(zero):
                 out.append(fail("prop", "Sample_Metropolis: sample in a region of zero target density after burn-in",
                                 "%d of %d samples, e.g. x = %r (pdf %d, burn-in %d)" % (int(np.sum(zero)), n, float(v[zero][0]), pid, int(p[3]))))
                 return out
-            cdf = (lambda x: tri(x - 5.0)) if pid == 24 else (lambda x: np.clip(x - 2.0, 0.0, 1.0))
+            cdf = (lambda x: tri(x - 5.0)) if pid == 24 else ((lambda x: np.clip(x - 2.0, 0.0, 1.0)) if pid == 25 else tnorm(dom[0], dom[1], 90.0, 1.0))
         elif pid == 6:       # density ∝ x on [lo,hi], lo >= 0
             cdf = lambda x: (x * x - dom[0] ** 2) / (dom[1] ** 2 - dom[0] ** 2)
         elif pid == 2:
@@ -804,6 +808,13 @@ def cmp_stat(a, impl, ctx):
             cx = lambda t_: (t_ - dom[0]) / (dom[1] - dom[0]); cy = lambda t_: (t_ - dom[2]) / (dom[3] - dom[2])
         if n < 2000 or pid == 23:
             return out          # short plateau runs: containment only
+        if kind == "metro2" and pid in (24, 25):
+            zero = ((np.abs(x - 5.0) >= 1.0) | (np.abs(y) >= 1.0)) if pid == 24 else (np.exp(-0.5 * ((x - 90.0) ** 2 + y ** 2)) == 0.0)
+            if np.any(zero):
+                out.append(fail("prop", "Sample_Metropolis_2D: sample in a region of zero target density after burn-in",
+                                "%d of %d samples, e.g. (%r, %r) (pdf %d, burn-in %d)" % (int(np.sum(zero)), n, float(x[zero][0]), float(y[zero][0]), pid, int(p[4]))))
+                return out
+            cx, cy = ((lambda t_: tri(t_ - 5.0)), tri) if pid == 24 else (tnorm(dom[0], dom[1], 90.0, 1.0), tnorm(dom[2], dom[3]))
         _ks(x, cx, what + " x-marginal", out, n_eff=ne)
         _ks(y, cy, what + " y-marginal", out, n_eff=ne)
         if pid in (22, 20, 0):
